@@ -91,7 +91,13 @@ def run(chk, repo, tier):
     # the unitarity of propagate._fft2 (norm='ortho', or 1/sqrt(rows*cols) by hand) is rule C09-h, run below under C05-b
     from .common import Remap
     from . import c09
-    _run_nested(c09, Remap(chk, {'C09-d': 'C05-b', 'C09-e': 'C05-b', 'C09-h': 'C05-b', 'C09-g': 'C05-b', 'C09-b': 'C05-b'}), repo, tier)
+    _run_nested(c09, Remap(chk, {'C09-d': 'C05-b', 'C09-e': 'C05-b', 'C09-h': 'C05-b', 'C09-g': 'C05-b', 'C09-b': 'C05-b',
+                                 'C09-c': 'C05-b'}), repo, tier)
+    # the inverse transform conserves energy with the same flag: its gain is that of the forward transform for every sampling
+    from . import c01 as _c01_5
+    nd5 = list(chk.not_decided)
+    _run_nested(_c01_5, Remap(chk, {'C01-h': 'C05-a'}), repo, tier, fname='run_check')
+    chk.not_decided[:] = nd5
 
     # ---------------------------------------------------------------- C05-c
     fi, paths, _ = analyse(repo, 'field.insert', config={'intensity': TRUE, 'weight': C(1)},
